@@ -6,12 +6,97 @@ NOTE = ("Trusted: Coq 8.16.1 kernel (+vm_compute; no native_compute), no axioms 
         "extraction via ExtrOcamlBasic + ocaml/driver.ml (cross-checked by vm_compute in cases.v on every run), the "
         "correspondence harness under /verif/harness (generators, renaming, float->rational conversion, exception->enum), "
         "third-party libraries modelled by contract. ")
+TECH = 'Coq proof of hand-written Gallina model + differential correspondence check (extracted OCaml model vs real code)'
 CHECKS = {
+ 'C01': dict(
+   text="Theorems (Coq, for every decision procedure returning one child of the asked parent per cell, every valid taxonomy incl. single-child chains "
+        "and single-node levels, every cell list and generator state): c01_path_consistent (a successful run_type_assignment yields one row per cell in "
+        "cell order and every row is a root-to-leaf path of the tree) and c01_total (the run does succeed). Tie: (i) real run_type_assignment with "
+        "_run_type_assignment replaced by a recorded-choice oracle on every tree shape up to 4 levels / 4-6 leaves + random trees vs the extracted model; "
+        "(ii) real run_mapping pipeline runs (flatten, drop_level, chunk sizes, 1-4 workers) with spec_routing evaluated on the observed records.",
+   note="Chunk dispatch/gather and re_order_blob are exercised by the pipeline runs but not yet covered by a theorem (C04); HDF5/anndata reading of obs "
+        "and the JSON writer are not modelled. F1 (single top node -> KeyError) was repaired in /repo (df833cb).",
+   technique=TECH, ref="DESIGN.md section 7 C01"),
+ 'C02': dict(
+   text="Theorems: c02_vote_is_argmax (each bootstrap iteration votes for the first reference row whose exact Pearson correlation with the cell over the "
+        "drawn marker subset is maximal), c02_key_lt_is_correlation_order (the integer comparison used IS c1/sqrt(v1) < c2/sqrt(v2)) and c02_key_order (a strict "
+        "weak order), c02_subset_wellformed / c02_subset_size (an accepted draw is duplicate-free, within the n usable markers, of size max(1, round(f n)) which "
+        "lies in [1, n] for every factor in (0,1]), c02_one_vote_per_iteration, c02_choose_node_meets_spec (choose_node — sort by votes, keep the first n_assign, "
+        "drop vote-less runners-up — returns an outcome the acceptor check_choice accepts for EVERY permutation of the children with non-increasing votes, i.e. "
+        "whatever numpy's argsort does with ties) and c02_winner_plurality (what acceptance means). Tie: choose_node on random dyadic matrices with a recording "
+        "generator, and real run_mapping runs in which every (cell, node, iteration) vote is recomputed by the extracted model from the input files and the recorded "
+        "subsets; winners, vote counts, runner-up multisets exact (check_choice evaluated on every reported record), correlations within 1e-9.",
+   note="Float rounding inside np.dot/np.mean is not modelled (decisions compared, near ties with relative margin <= 1e-9 skipped and counted); "
+        "rng.choice itself is not modelled (the recorded draws are checked to be duplicate-free and of the right size); dyadic bootstrap factors.",
+   technique=TECH, ref="DESIGN.md section 7 C02"),
+ 'C03': dict(
+   text="Theorems: c03_choose_node_contract (for every tie order of the sort, every vote function with `iters` votes and every n_assign >= 1 the outcome of "
+        "choose_node has: a winner with the most votes and share wv/iters in (0,1]; at most n_assign-1 runners-up, distinct siblings other than the winner, strictly "
+        "positive votes none above the winner's, non-increasing, the top vote getters; shares summing to <= 1 and to exactly 1 when every vote getter could be listed), "
+        "the same clauses for any outcome the acceptor accepts (c03_probability_range, c03_runner_up_shape, c03_sum_at_most_one, c03_sum_exactly_one), "
+        "c03_corr_range (-1 <= r <= 1 by Cauchy-Schwarz over exact integers), and at the level of run_type_assignment for every decision procedure and valid "
+        "taxonomy: c03_aggregate_is_running_product and c03_single_child (a level below a single-child parent carries that child, probability 1, no runners-up and "
+        "the correlation of the level above; 1 at a single top node). Tie: every record of real run_mapping runs (iteration count 1, zero runners-up, more runners-up "
+        "than siblings, single-child chains, flatten / dropped levels) checked against the contract through the extracted check_choice on recomputed votes.",
+   note="The [-1,1] clause is checked on the implementation with a 1e-9 allowance (real outputs contain 1.0000000000000002), the model proves it "
+        "exactly; aggregate probability compared with the float running product within 1e-12.",
+   technique=TECH, ref="DESIGN.md section 7 C03"),
+ 'C06': dict(
+   text="Theorems: c06_factor_one_subset_is_everything (with bootstrap factor 1 every acceptable draw, sorted as tally_votes sorts it, is the whole marker "
+        "list 0..n-1 whatever the generator returned) and c06_nearest_independent_of_draw; c06_per_cell (for EVERY decision procedure whose record for a cell "
+        "is a function of that cell alone, every valid taxonomy, cell list and generator state, run_type_assignment — shared previously_assigned tables, "
+        "write-back by row index, visits in sorted node order — equals, row by row, the per-cell recursion map_one down the tree); corollaries "
+        "c06_same_cell_same_row (permutation, subset, superset, duplication: same cell, same row, at any positions of any two runs) and c06_chunking (any split "
+        "into chunks run from any generator states concatenates to the whole run). Tie: (i) real run_type_assignment with the per-cell recorded-choice oracle on "
+        "cell lists and their permuted / thinned / duplicated versions vs map_one (extracted, tag 601); (ii) paired real run_mapping runs at factor 1: permutation, "
+        "subset, superset, duplicated rows, other chunk sizes / worker counts / encodings, raw vs log2CPM input, joined on cell id.",
+   note="That the real _run_type_assignment at factor 1 is per-cell (normalisation row-wise, correlation of a row with the reference independent of the other rows) "
+        "is established by the paired runs, not proved; correlations compared within 1e-9 because BLAS may sum in a different order when the company changes.",
+   technique=TECH, ref="DESIGN.md section 7 C06"),
+ 'C08': dict(
+   text="Theorems (for every tree, marker table, query/reference gene lists, min_markers): c08_used_equals_spec (genes used for a parent with >= 2 children "
+        "= own list intersected with the query if large enough, else the minimal union with the nearest ancestors / root, computed from the ORIGINAL table: "
+        "ancestors are unpatched when consulted), c08_fallback_minimal, c08_fallback_bounds, c08_reported_equals_used, c08_pairing_by_name, "
+        "c08_pairing_columns, c08_used_in_query_and_reference, c08_single_child_needs_none (+ _refuted witness = finding F7), c08_errors_root, "
+        "c08_errors_unknown_to_reference, c08_errors_no_shared_marker, c08_flatten_unions, c08_flatten_tree. Tie: validate_marker_lookup + "
+        "create_marker_cache_from_specified_markers + serialize_markers on generated (tree, table, gene orders, min_markers 0..6), HDF5 cache re-read, "
+        "error kinds through an enum, vs the extracted model.",
+   note="Names contain no '/'; 'metadata'/'log' keys of the table ignored; F7 is a known finding (entry of a parent that needs no markers aborts cache creation).",
+   technique=TECH, ref="DESIGN.md section 7 C08"),
+ 'C15': dict(
+   text="Theorems: c15_hdf5_roundtrip (hdf5_to_blob (blob_to_hdf5 b) = b for every well-formed blob with per-level uniform directly_assigned flags) with "
+        "c15_roundtrip_without_uniform_flags_refuted (necessity), c15_csv_rows, c15_four_decimals (+ c15_csv_confidence_four_decimals_refuted), "
+        "c15_query_order, c15_tree_reconstructs. Tie: generated result blobs (depth 1-5, names with commas/quotes/newlines, 0..k runners-up, inferred "
+        "levels, malformed stream) through the real blob_to_csv / blob_to_hdf5 / hdf5_to_blob / re_order_blob / to_str-from_str vs the extracted model.",
+   note="pandas CSV quoting and %.4f, gzip, h5py and json float printing are trusted; floats finite; F15 (column decided by substring of the level name) is a known finding.",
+   technique=TECH, ref="DESIGN.md section 7 C15"),
+ 'C18': dict(
+   text="Theorems: c18_centroid_partial (one iteration: a query row equal to leaf l's mean profile and non-constant on the drawn subset gets correlation 1 with l, "
+        "so under the property's proviso the iteration is won by a leaf of l's child), c18_centroid_unanimous_partial (all iterations: that child gets every vote, every "
+        "other child none) and c18_centroid_probability_one_partial (choose_node, for every tie order and runner-up count, reports that child with all votes — "
+        "probability 1 — and an empty runner-up list; at every node of the path, for every bootstrap factor), with a non-trivial instance of the hypotheses; "
+        "c18_flat_subset_refuted (finding F6: a subset on which the centroid is constant). Tie: the four real "
+        "stages chained (statistics -> reference markers -> query markers -> mapping) on generated separable references, centroid queries in shuffled gene "
+        "order, factors {0.25,0.5,0.9,1}, proviso evaluated from the recorded subsets.",
+   note="Partial: the full statement is refuted by the faithful model for flat subsets (F6, known finding, documented convention of distance_utils); "
+        "F12 (taxonomy with fewer than two leaves: find_markers raises UnboundLocalError) known.",
+   technique=TECH, ref="DESIGN.md section 7 C18"),
+ 'C20': dict(
+   text="Theorems: c20_sinks_sanitised (under cloud_safe every string reaching config/log/log-file sinks is an image of sanitize), c20_word_sound_partial "
+        "(every blank-delimited word whose quote-stripped form is or lies below an existing path is replaced by text without a rooted existing path), "
+        "c20_replacement_text, c20_exposed_iff, c20_unexposed_text_unchanged; refutations of the full statement with witnesses replayed on the code: "
+        "c20_no_abs_path_refuted / c20_glued_prefixes_refuted (F10), c20_top_level_entry_refuted (F14), c20_sibling_of_package_raises (F13). Tie: "
+        "sanitize_paths on generated strings over a real generated directory tree vs the extracted model, plus a substring scan of the output for existing absolute paths.",
+   note="Partial: the no-substring statement is refuted (F10, F13, F14 known findings); third-party message contents are not modelled; names without white space.",
+   technique=TECH, ref="DESIGN.md section 7 C20"),
  'C16': dict(
    text="Theorems (Coq, for all inputs): the integer type chosen contains the rounded bounds and is the first candidate that does; "
-        "every value between min and max fits after round-half-even; rounding moves a value by <= 1/2; identifier rewriting "
+        "every value between min and max fits after round-half-even; rounding moves a value by <= 1/2; c16_dtype_float_faithful (the comparison numpy really "
+        "makes for float32/float64 bounds — iinfo.max converted to the float type — coincides with the exact one away from the float boundaries) and "
+        "c16_dtype_float_boundary_refuted (at 2^32 in float32 the code's choice cannot hold the bound: witness of finding F5); identifier rewriting "
         "(Ensembl kept minus suffix, lookup, pairwise distinct placeholders, n_unmapped, recorded renaming = changed pairs); "
-        "decision table (rejections, no-change => no file). Tie: choose_int_dtype on all type-boundary values, is_ensembl on "
+        "decision table (rejections, no-change => no file). Tie: choose_int_dtype vs the float-faithful model on all type-boundary values in int/float/float32/float64 "
+        "(agreement required on EVERY input, F5 inputs included) and vs the exact statement of the property (which flags F5), is_ensembl on "
         "generated strings, validate_h5ad end-to-end on generated files vs the extracted model, input digests before/after.",
    note="is_x_integers is an oracle input to the model; NaN/inf not modelled; sparse matrices without any stored value are "
         "excluded here (C05/C13); species auto-detection not exercised.",
